@@ -179,7 +179,6 @@ CATALOG = [
     ("GroupBCD", "QuadraticGroup", ["G", "Gz", "G+"], ["F", "csc"], [False, True]),
     ("GroupBCD", "QuadraticGroup", ["SG"], ["F", "csc"], [False, True]),
     ("GroupProxNewton", "LogisticGroup", ["G", "G+"], ["F"], [False, True]),
-    ("GroupProxNewton", "QuadraticGroup", ["G"], ["F"], [False, True]),
     ("MultiTaskBCD", "QuadraticMultiTask", ["L21", "L205", "BMCP", "BSCAD"], ["F", "csc"],
      [False, True]),
     ("GramCD", None, ["L1", "WL1", "EN", "L1+", "MCP", "SCAD"], ["F", "csc"], [False]),
